@@ -58,7 +58,7 @@ def check(ctx):
     stream.r7_guard_dominance(ctx, funcs)
     from rules import independence
     independence.r28_functions(ctx, [('dataflows.helpers.iterable_loader:iterable_loader.handle_iterable',
-                                      {'mode': 'dict / list mode fixed by the first item and asserted for every later item'})])
+                                      {'__kinds__': ('WRITE_ONCE',)})])
     n29 = stream.r29_no_shared_fields(ctx, stream.package_phase_functions(ctx))
     run.floor('R29', n29, 8, 'schema field stores')
     # 5. unique names
